@@ -270,6 +270,11 @@ class DocEngine:
             tk.append(("dotfolder", 1))
         if any(a.get("path") and a["packaging"] == s["packaging"] and not a.get("dead") for a in self.artifacts):
             tk.append(("existing", 2))
+        if prop == "C10" and s["packaging"] == "folder":
+            # a document opened from a folder is by design a live view of that folder
+            # (parts are read again when their file changes): overwriting the folder one
+            # twin reads from is an external writer, which no property covers
+            tk = [t for t in tk if t[0] not in ("existing", "inplace")]
         s["target"] = rng.weighted(tk, "target")
         if s["target"] == "existing":
             idx = [i for i, a in enumerate(self.artifacts) if a.get("path") and a["packaging"] == s["packaging"] and not a.get("dead")]
